@@ -225,6 +225,56 @@ type c20SeqRec struct {
 	Secret string `json:"secret"`
 	User   string `json:"user"`
 	Dur    int    `json:"dur"`
+	// Phase > 0: issue only - at that many milliseconds into a wall-clock second - and compare the expiry caveat
+	// with (second of issue) + duration: "stops validating once the number of seconds requested has elapsed"
+	// whatever the sub-second instant of the issue
+	Phase int `json:"phase"`
+}
+
+func c20IssuePhase(r c20SeqRec) Result {
+	nt := fmt.Sprintf("issue-phase|%d|dur=%d", r.Phase, r.Dur)
+	eff := r.Dur
+	if eff == 0 {
+		eff = 120
+	}
+	for attempt := 0; attempt < 8; attempt++ {
+		now := time.Now()
+		target := now.Truncate(time.Second).Add(time.Duration(r.Phase) * time.Millisecond)
+		if !target.After(now) {
+			target = target.Add(time.Second)
+		}
+		time.Sleep(time.Until(target))
+		before := time.Now()
+		tok, err := tokens.GenerateLoginToken(tokens.TokenOptions{ServerPrivateKey: []byte(r.Secret), ServerName: "example.org", UserID: r.User, Duration: r.Dur})
+		after := time.Now()
+		if err != nil {
+			return Result{OK: false, NT: nt, Key: "C20/issue/error", What: "GenerateLoginToken failed: " + err.Error()}
+		}
+		if before.Unix() != after.Unix() {
+			continue // straddled a second boundary: the expected expiry is ambiguous, try again
+		}
+		bin, err := base64.RawURLEncoding.DecodeString(tok)
+		if err != nil {
+			return Result{OK: false, NT: nt, Key: "C20/issue/encoding", What: "issued token is not unpadded URL-safe base64"}
+		}
+		var m macaroon.Macaroon
+		if err := m.UnmarshalBinary(bin); err != nil {
+			return Result{OK: false, NT: nt, Key: "C20/issue/encoding", What: "issued token is not a macaroon: " + err.Error()}
+		}
+		for _, c := range m.Caveats() {
+			if id := string(c.Id); strings.HasPrefix(id, tokens.TimePrefix) {
+				exp, err := strconv.ParseInt(id[len(tokens.TimePrefix):], 10, 64)
+				if err != nil || exp != before.Unix()+int64(eff) {
+					return Result{OK: false, NT: nt, Key: "C20/issue/time-caveat",
+						What: fmt.Sprintf("issued %d ms into unix second %d for %d s: expiry caveat %q is not issue second + duration", before.Nanosecond()/1e6, before.Unix(), eff, id),
+						Want: before.Unix() + int64(eff), Got: id}
+				}
+				return Result{OK: true, NT: nt}
+			}
+		}
+		return Result{OK: false, NT: nt, Key: "C20/issue/caveats", What: "issued token has no time caveat"}
+	}
+	return Result{OK: true, NT: nt + "|inconclusive", What: "could not issue within one wall-clock second"}
 }
 
 func init() {
@@ -233,6 +283,9 @@ func init() {
 			var r c20SeqRec
 			if err := json.Unmarshal(raw, &r); err != nil {
 				panic(err)
+			}
+			if r.Phase > 0 {
+				return c20IssuePhase(r)
 			}
 			opts := tokens.TokenOptions{ServerPrivateKey: []byte(r.Secret), ServerName: "example.org", UserID: r.User, Duration: r.Dur}
 			issued := time.Now()
